@@ -180,3 +180,46 @@ def run(ctx):
               trivial=True, config=config)
         ck.extra.setdefault('library_call_sites', {})[config] = sites
     ck.min_instances('objects with static storage in the library', total_statics, 6)
+
+
+MUTANTS = [
+    {'id': 'm43', 'desc': 'new file-scope counter updated in dl_write', 'file': 'src/lib/dl/dl.c',
+     'old': """        dl->dl_chunk_data += wb;
+    }
+    return wb;""",
+     'new': """        dl->dl_chunk_data += wb;
+        total_written += wb;
+    }
+    return wb;""", 'edits': None, 'expect': 'R7.static-write dl_write'},
+    {'id': 'm44', 'desc': 'copy buffer static again', 'file': 'src/lib/dl/dl.c',
+     'old': """    char buf[BUF_SIZE] = {0};
+
+    size_t to_read = src_idx->comp_length;""",
+     'new': """    static char buf[BUF_SIZE] = {0};
+
+    size_t to_read = src_idx->comp_length;""", 'expect': 'R7.static-write write_and_verify_chunk'},
+    {'id': 'm19c', 'desc': 'context pointer cached in a static', 'file': 'src/lib/zck.c',
+     'old': """    zck->mode = ZCK_MODE_READ;
+    zck->fd = src_fd;
+    return true;""",
+     'new': """    static zckCtx *last_ctx;
+    last_ctx = zck;
+    zck->mode = ZCK_MODE_READ;
+    zck->fd = src_fd;
+    return last_ctx != NULL;""", 'expect': 'R7.static-write zck_init_adv_read'},
+    {'id': 'm19d', 'desc': 'strtok in the library', 'file': 'src/lib/zck.c',
+     'old': """    if(tmpdir == NULL) {
+        tmpdir = "/tmp/";""",
+     'new': """    if(tmpdir != NULL && strtok(tmpdir, ":") == NULL) {
+        tmpdir = "/tmp/";
+    } else if(tmpdir == NULL) {
+        tmpdir = "/tmp/";""", 'expect': 'R7.mt-unsafe get_tmp_fd'},
+    {'id': 'n19a', 'desc': 'new const table', 'file': 'src/lib/dl/dl.c',
+     'old': """/* Free zckDL header regex used for downloading ranges */""",
+     'new': """static const char dl_tag[] = "dl";
+const char *dl_get_tag(void) { return dl_tag; }
+/* Free zckDL header regex used for downloading ranges */""", 'expect': None},
+]
+MUTANTS[0]['edits'] = [('src/lib/dl/dl.c', MUTANTS[0]['old'], MUTANTS[0]['new']),
+                       ('src/lib/dl/dl.c', "/* Free zckDL header regex used for downloading ranges */",
+                        "static size_t total_written;\n/* Free zckDL header regex used for downloading ranges */")]
